@@ -342,7 +342,19 @@ func (ex *Exec) havocLoop(st *State, lp *Loop) {
 	for _, fam := range fams {
 		m := mods[fam]
 		f := st.fams[fam]
-		fresh := st.sc.freshFun("havoc_"+fam, f.Args, f.Res)
+		isElem := strings.HasPrefix(fam, "E.")
+		fargs := f.Args
+		if isElem {
+			fargs = []Sort{SInt, SInt}
+		}
+		fresh := st.sc.freshFun("havoc_"+fam, fargs, f.Res)
+		freshAt := func(p []Term) Term {
+			if isElem {
+				a, abs := elemAbs(p)
+				return app(f.Res, fresh, a, abs)
+			}
+			return app(f.Res, fresh, p...)
+		}
 		entrySym := st.symIn(st.entry, fam)
 		var rootIDs []Term
 		for _, r := range m.roots {
@@ -366,24 +378,20 @@ func (ex *Exec) havocLoop(st *State, lp *Loop) {
 			}
 			if m.wild {
 				// everything may change except pre-existing, non-assignable memory
-				ft := frameTarget{Fam: fam, Obj: p[0]}
-				if len(p) > 1 && f.Args[1] == SInt && strings.HasPrefix(fam, "E.") {
-					ft.Idx = &p[1]
-				}
 				cs = append(cs, tTrue)
-				_ = ft
 			}
 			return or(cs...)
 		}, func(p []Term) Term {
 			if m.wild {
 				ft := frameTarget{Fam: fam, Obj: p[0]}
-				if len(p) > 1 && strings.HasPrefix(fam, "E.") {
-					ft.Idx = &p[1]
+				if isElem {
+					_, abs := elemAbs(p)
+					ft.Idx = &abs
 				}
 				assignable := ex.assignableCond(st, ft)
-				return ite(assignable, app(f.Res, fresh, p...), app(f.Res, entrySym, p...))
+				return ite(assignable, freshAt(p), app(f.Res, entrySym, p...))
 			}
-			return app(f.Res, fresh, p...)
+			return freshAt(p)
 		})
 	}
 	// map iterator: visited set is loop-carried
@@ -657,19 +665,35 @@ func (ex *Exec) applyContract(st *State, c *ssa.Call, con *Contract, bindings []
 		}
 		for _, fam := range order {
 			f := st.fams[fam]
-			fresh := st.sc.freshFun("post_"+fam, f.Args, f.Res)
+			isElem := strings.HasPrefix(fam, "E.")
+			fargs := f.Args
+			if isElem {
+				fargs = []Sort{SInt, SInt}
+			}
+			fresh := st.sc.freshFun("post_"+fam, fargs, f.Res)
 			lss := byFam[fam]
 			st.updateFamWhere(f, func(p []Term) Term {
 				var cs []Term
 				for _, ls := range lss {
-					c := eq(p[0], ls.Obj)
-					if ls.Ranged {
-						c = and(c, le(ls.Lo, p[1]), lt(p[1], ls.Hi))
+					if isElem {
+						_, abs := elemAbs(p)
+						c := eq(p[0], ls.Obj)
+						if ls.Ranged {
+							c = and(c, le(ls.Lo, abs), lt(abs, ls.Hi))
+						}
+						cs = append(cs, c)
+						continue
 					}
-					cs = append(cs, c)
+					cs = append(cs, eq(p[0], ls.Obj))
 				}
 				return or(cs...)
-			}, func(p []Term) Term { return app(f.Res, fresh, p...) })
+			}, func(p []Term) Term {
+				if isElem {
+					a, abs := elemAbs(p)
+					return app(f.Res, fresh, a, abs)
+				}
+				return app(f.Res, fresh, p...)
+			})
 		}
 	}
 	na := st.sc.fresh("alloc", SInt)
@@ -721,7 +745,7 @@ func (ex *Exec) builtin(st *State, c *ssa.Call, bi *ssa.Builtin) {
 		case SSlice:
 			st.vals[c] = slLen(x)
 		case SStr:
-			st.vals[c] = app(SInt, "str.len", x)
+			st.vals[c] = app(SInt, "gstr.len", x)
 		case SInt:
 			mt := args[0].Type().Underlying().(*types.Map)
 			_, _, l := st.mapFams(st.u().sortOf(mt.Key()), st.u().sortOf(mt.Elem()))
@@ -744,8 +768,8 @@ func (ex *Exec) builtin(st *State, c *ssa.Call, bi *ssa.Builtin) {
 		var srcAt func(j Term) Term
 		if isStringType(args[1].Type()) {
 			s := ex.val(st, args[1])
-			srcLen = app(SInt, "str.len", s)
-			srcAt = func(j Term) Term { return app(SInt, "str.at", s, j) }
+			srcLen = app(SInt, "gstr.len", s)
+			srcAt = func(j Term) Term { return app(SInt, "gstr.at", s, j) }
 		} else {
 			src := ex.val(st, args[1])
 			srcLen = slLen(src)
@@ -756,9 +780,7 @@ func (ex *Exec) builtin(st *State, c *ssa.Call, bi *ssa.Builtin) {
 		st.sc.assert(eq(n, ite(le(slLen(dst), srcLen), slLen(dst), srcLen)))
 		lo, hi := slOff(dst), add(slOff(dst), n)
 		ex.frameCheck(st, fmt.Sprintf("frame/copy#%d", ord), c.Pos(), args[0], []frameTarget{{Fam: f.Name, Obj: slArr(dst), Lo: &lo, Hi: &hi}})
-		st.updateFamWhere(f, func(p []Term) Term {
-			return and(eq(p[0], slArr(dst)), le(lo, p[1]), lt(p[1], hi), gt(n, intLit(0)))
-		}, func(p []Term) Term { return srcAt(sub(p[1], lo)) })
+		st.updateElems(f, slArr(dst), lo, hi, tTrue, func(abs Term) Term { return srcAt(sub(abs, lo)) })
 		st.vals[c] = n
 	case "delete":
 		mt := args[0].Type().Underlying().(*types.Map)
@@ -789,8 +811,8 @@ func (ex *Exec) appendOp(st *State, c *ssa.Call, ord int) {
 	var srcAt func(j Term) Term
 	if isStringType(args[1].Type()) {
 		x := ex.val(st, args[1])
-		n = app(SInt, "str.len", x)
-		srcAt = func(j Term) Term { return app(SInt, "str.at", x, j) }
+		n = app(SInt, "gstr.len", x)
+		srcAt = func(j Term) Term { return app(SInt, "gstr.at", x, j) }
 	} else {
 		x := ex.val(st, args[1])
 		n = slLen(x)
@@ -806,7 +828,7 @@ func (ex *Exec) appendOp(st *State, c *ssa.Call, ord int) {
 	st.sc.assert(eq(inplace, le(newLen, slCap(s))))
 	id := ex.newObject(st, "apparr")
 	ncap := st.sc.fresh("app_cap", SInt)
-	st.sc.assert(and(ge(ncap, newLen), le(ncap, T(SInt, "4611686018427387904"))))
+	st.sc.assert(and(ge(ncap, newLen), le(ncap, T(SInt, "281474976710656"))))
 	lo := add(slOff(s), slLen(s))
 	hi := add(lo, n)
 	// frame: the in-place case writes cells [off+len, off+len+n) of the shared array
@@ -818,14 +840,16 @@ func (ex *Exec) appendOp(st *State, c *ssa.Call, ord int) {
 		st.check(name, "frame", implies(and(inplace, gt(n, intLit(0))), ex.assignableCond(st, ft)), "in-place append writes only spare capacity this function may write", nil, c.Pos())
 	}
 	st.updateFamWhere(f, func(p []Term) Term {
+		a, abs := elemAbs(p)
 		return or(
-			and(inplace, eq(p[0], slArr(s)), le(lo, p[1]), lt(p[1], hi)),
-			and(not(inplace), eq(p[0], id)))
+			and(inplace, eq(a, slArr(s)), le(lo, abs), lt(abs, hi)),
+			and(not(inplace), eq(a, id)))
 	}, func(p []Term) Term {
+		_, abs := elemAbs(p)
 		return ite(inplace,
-			srcAt(sub(p[1], lo)),
-			ite(lt(p[1], slLen(s)), st.getElem(oldSnapS, f, s, p[1]),
-				ite(lt(p[1], newLen), srcAt(sub(p[1], slLen(s))), st.u().zero(f.Res))))
+			srcAt(sub(abs, lo)),
+			ite(lt(abs, slLen(s)), st.getElem(oldSnapS, f, s, abs),
+				ite(lt(abs, newLen), srcAt(sub(abs, slLen(s))), st.u().zero(f.Res))))
 	})
 	res := st.sc.fresh("app_res", SSlice)
 	st.sc.assert(eq(res, ite(inplace, mkSlice(slArr(s), slOff(s), newLen, slCap(s)), mkSlice(id, intLit(0), newLen, ncap))))
